@@ -15,28 +15,28 @@ CORE = {"orders", "orders.status", "orders.vol", "orders.price", "orders.times",
 
 # profile plans: (profile, histories, ops per history, extra drive args)
 PLANS = {
-    "C01": {"quick": [("book", "disciplined", 800, 60, []), ("book", "modify", 200, 50, []), ("book", "wide", 100, 60, [])],
-            "thorough": [("book", "disciplined", 12000, 120, ["--levels", "1,3,10,24"]), ("book", "modify", 3000, 100, []),
+    "C01": {"quick": [("enum", "d3", 4, 3, []), ("book", "disciplined", 800, 60, []), ("book", "modify", 200, 50, []), ("book", "wide", 100, 60, [])],
+            "thorough": [("enum", "d4", 16, 4, []), ("book", "disciplined", 12000, 120, ["--levels", "1,3,10,24"]), ("book", "modify", 3000, 100, []),
                          ("book", "wide", 2000, 100, []), ("book", "toggle", 2000, 100, [])]},
-    "C02": {"quick": [("book", "disciplined", 300, 60, ["--levels", "1,2,3,5,10,24"]), ("book", "toggle", 300, 60, ["--levels", "1,2,3,5,10,24"]),
+    "C02": {"quick": [("enum", "d3", 4, 3, []), ("book", "disciplined", 300, 60, ["--levels", "1,2,3,5,10,24"]), ("book", "toggle", 300, 60, ["--levels", "1,2,3,5,10,24"]),
                       ("book", "modify", 200, 60, ["--levels", "1,3,10"]), ("book", "reload", 100, 60, ["--levels", "1,5,24"]),
                       ("market", "plain", 60, 80, [])],
-            "thorough": [("book", "disciplined", 8000, 120, ["--levels", "1,2,3,5,10,24"]), ("book", "toggle", 5000, 120, ["--levels", "1,2,3,5,10,24"]),
+            "thorough": [("enum", "d4", 16, 4, []), ("book", "disciplined", 8000, 120, ["--levels", "1,2,3,5,10,24"]), ("book", "toggle", 5000, 120, ["--levels", "1,2,3,5,10,24"]),
                          ("book", "modify", 3000, 120, ["--levels", "1,3,10"]), ("book", "reload", 2000, 100, ["--levels", "1,5,24"]),
                          ("book", "wide", 2000, 100, []), ("market", "plain", 1000, 100, []), ("menv", "plain", 1000, 10, [])]},
-    "C03": {"quick": [("book", "disciplined", 400, 60, []), ("book", "toggle", 200, 60, []), ("book", "modify", 300, 60, [])],
-            "thorough": [("book", "disciplined", 10000, 120, []), ("book", "toggle", 4000, 120, []), ("book", "modify", 4000, 120, []),
+    "C03": {"quick": [("enum", "d3", 4, 3, []), ("book", "disciplined", 400, 60, []), ("book", "toggle", 200, 60, []), ("book", "modify", 300, 60, [])],
+            "thorough": [("enum", "d4", 16, 4, []), ("book", "disciplined", 10000, 120, []), ("book", "toggle", 4000, 120, []), ("book", "modify", 4000, 120, []),
                          ("book", "wide", 2000, 100, []), ("market", "plain", 1000, 100, [])]},
-    "C04": {"quick": [("book", "redundant", 500, 80, []), ("book", "toggle", 200, 60, []), ("book", "modify", 150, 60, [])],
-            "thorough": [("book", "redundant", 8000, 150, []), ("book", "toggle", 3000, 120, []), ("book", "disciplined", 3000, 120, []),
+    "C04": {"quick": [("enum", "d3", 4, 3, []), ("book", "redundant", 500, 80, []), ("book", "toggle", 200, 60, []), ("book", "modify", 150, 60, [])],
+            "thorough": [("enum", "d3", 4, 3, []), ("enum", "d3tick1", 4, 3, ["--tick", "1"]), ("book", "redundant", 8000, 150, []), ("book", "toggle", 3000, 120, []), ("book", "disciplined", 3000, 120, []),
                          ("book", "modify", 3000, 120, [])]},
-    "C05": {"quick": [("book", "ties", 500, 60, []), ("book", "ties", 200, 60, ["--prices", "2"]),
+    "C05": {"quick": [("enum", "d3ties", 4, 3, ["--ties", "1"]), ("book", "ties", 500, 60, []), ("book", "ties", 200, 60, ["--prices", "2"]),
                       ("env", "overfull", 100, 8, []), ("menv", "overfull", 100, 8, [])],
-            "thorough": [("book", "ties", 12000, 120, []), ("book", "ties", 4000, 100, ["--prices", "2"]),
+            "thorough": [("enum", "d4ties", 16, 4, ["--ties", "1"]), ("book", "ties", 12000, 120, []), ("book", "ties", 4000, 100, ["--prices", "2"]),
                          ("book", "ties", 2000, 100, ["--levels", "1,10,24"]),
                          ("env", "overfull", 2000, 12, []), ("menv", "overfull", 2000, 12, [])]},
-    "C06": {"quick": [("book", "modify", 500, 40, ["--levels", "5"]), ("book", "modify", 200, 60, ["--prices", "2"])],
-            "thorough": [("book", "modify", 10000, 80, ["--levels", "5"]), ("book", "modify", 4000, 120, ["--prices", "2"]),
+    "C06": {"quick": [("enum", "d3", 4, 3, []), ("book", "modify", 500, 40, ["--levels", "5"]), ("book", "modify", 200, 60, ["--prices", "2"])],
+            "thorough": [("enum", "d4", 16, 4, []), ("book", "modify", 10000, 80, ["--levels", "5"]), ("book", "modify", 4000, 120, ["--prices", "2"]),
                          ("book", "toggle", 2000, 100, [])]},
     "C07": {"quick": [("book", "reload", 300, 60, ["--levels", "1,10"]), ("market", "reload", 100, 80, ["--levels", "1,10"])],
             "thorough": [("book", "reload", 6000, 120, ["--levels", "1,3,10,24"]), ("market", "reload", 2000, 120, ["--levels", "1,3,10"])]},
@@ -55,9 +55,9 @@ PLANS = {
             "thorough": [("book", "malformed", 10000, 100, []), ("book", "disciplined", 2000, 100, []), ("book", "wide", 1000, 100, []),
                          ("book", "edge", 5000, 80, ["--levels", "1,3,10,24"]),
                          ("market", "malformed", 2000, 100, []), ("env", "malformed", 2000, 10, []), ("menv", "malformed", 2000, 10, [])]},
-    "C13": {"quick": [("book", "toggle", 500, 60, []), ("market", "plain", 100, 80, []), ("env", "toggle", 100, 8, []),
+    "C13": {"quick": [("enum", "d3toggle", 4, 3, ["--toggle", "1"]), ("book", "toggle", 500, 60, []), ("market", "plain", 100, 80, []), ("env", "toggle", 100, 8, []),
                       ("menv", "toggle", 100, 8, [])],
-            "thorough": [("book", "toggle", 12000, 120, []), ("book", "toggle", 2000, 100, ["--prices", "2"]),
+            "thorough": [("enum", "d3toggleties", 4, 3, ["--toggle", "1", "--ties", "1", "--profile", "toggle"]), ("enum", "d3toggle", 4, 3, ["--toggle", "1"]), ("book", "toggle", 12000, 120, []), ("book", "toggle", 2000, 100, ["--prices", "2"]),
                          ("market", "plain", 2000, 100, []), ("env", "toggle", 2000, 12, []), ("menv", "toggle", 2000, 12, [])]},
     "C14": {"quick": [("market", "plain", 300, 80, ["--levels", "1,3,10"]), ("menv", "plain", 200, 8, ["--assets", "1,2,3,4"]),
                       ("menv", "toggle", 100, 8, ["--assets", "2,3,4"])],
@@ -128,6 +128,9 @@ def gen_cmd(kind, profile, seed, hists, size, extra):
     if kind in ("env", "menv"):
         return [C.DRIVE, "env-gen", "--kind", kind, "--profile", profile, "--seed", str(seed), "--hists", str(hists),
                 "--rounds", str(size)] + extra
+    if kind == "enum":
+        # bounded-exhaustive: `seed` is the shard index, `hists` the number of shards, `size` the depth
+        return [C.DRIVE, "book-enum", "--depth", str(size), "--shard", f"{seed}/{hists}"] + extra
     if kind == "market":
         return [C.DRIVE, "market-gen", "--profile", profile, "--seed", str(seed), "--hists", str(hists), "--ops", str(size)] + extra
     raise ValueError(kind)
@@ -299,6 +302,10 @@ def check(prop, tier, seed, spec, verdict, workdir):
     with cf.ThreadPoolExecutor(max_workers=16) as ex:
         futs = []
         for pi, (kind, profile, hists, ops, extra) in enumerate(plans):
+            if kind == "enum":
+                for sh in range(hists):
+                    futs.append(ex.submit(run_profile, f"enum{profile}{pi}_{sh}", kind, profile, sh, hists, ops, extra, workdir))
+                continue
             # split into shards so that all cores are used
             shards = max(1, min(16, hists // 50))
             per = (hists + shards - 1) // shards
@@ -424,7 +431,7 @@ def decide(prop, tier, seed, spec, verdict, workdir, pr, finds, stats, totals, s
         "histories": totals.get("histories", 0),
         "distinct_nontrivial": totals.get("nontrivial_distinct", 0),
         "traces_validated_against_impl": totals.get("histories", 0),
-        "rule": "seeded random histories from the profiles listed in `plans` run on the real OrderBook; after every op the "
+        "rule": "seeded random histories from the profiles listed in `plans` (kind `enum`: bounded-exhaustive, EVERY operation sequence of the given depth over a small alphabet - limit orders at 2 prices x 2 volumes per side, 2 market sizes per side, cancel and the full modify grid on every order created so far, optionally the trading switch / no clock advance - each followed by drain probes) run on the real OrderBook; after every op the "
                 "complete observation is compared with the Lean model and the reference engine and the audit predicates are "
                 "evaluated on the implementation's own output; a history is non-trivial if it contains at least one trade and "
                 "one effective cancel or modify; distinct by hash of its op sequence",
